@@ -374,6 +374,8 @@ impl ViCut {
 				self.current_buffer().handle_block_insert();
 			}
 		}
+		self.current_buffer().set_cursor_clamp(true);
+		self.current_buffer().enforce_cursor_clamp();
 	}
 
 	fn handle_mode_transition(&mut self, cmd: ViCmd) -> Result<(),String> {
@@ -459,6 +461,7 @@ impl ViCut {
 		let should_clamp = self.mode.clamp_cursor();
 		self.current_buffer().set_cursor_clamp(should_clamp);
 		self.current_buffer().exec_cmd(cmd)?;
+		self.current_buffer().enforce_cursor_clamp();
 
 		if let Some(select_mode) = select_mode {
 			self.current_buffer().start_selecting(select_mode);
@@ -591,6 +594,8 @@ impl ViCut {
 			self.current_buffer().stop_selecting();
 			let mut mode: Box<dyn ViMode> = Box::new(ViNormal::new());
 			std::mem::swap(&mut mode, &mut self.mode);
+			self.current_buffer().set_cursor_clamp(true);
+			self.current_buffer().enforce_cursor_clamp();
 		}
 		Ok(())
 	}
